@@ -305,6 +305,53 @@ func runC15(c *Ctx) []Violation {
 			}
 		}
 	}
+	// checksum clause 3: two values that differ in a byte which is no UTF-8 at all (a Latin-1 file read
+	// under the default encoding). The line-based formats and EDI ingest such bytes as they are - a
+	// custom function sees them - so they are ingested values like any other.
+	if len(w.LRecs) > 0 && w.Render != nil && w.Tag("encoding") == "" && c.T.Chance("c15.invalid-utf8-pair", 1, 5) &&
+		(w.Format == "csv" || w.Format == "csv2" || w.Format == "fixed-length" || w.Format == "fixedlength2" || w.Format == "edi") {
+		c.T.Begin("c15.badbytes")
+		k := c.T.Intn("c15.badbytes.rec", len(w.LRecs))
+		fi := 1 + c.T.Intn("c15.badbytes.field", len(w.LRecs[k].Vals)-1)
+		c.T.End()
+		if fi != w.Shape.IntIdx {
+			mk := func(b string) (*world.World, string) {
+				recs := append([]world.LRec{}, w.LRecs...)
+				nr := world.LRec{Vals: append([]string{}, recs[k].Vals...), Items: recs[k].Items}
+				nr.Vals[fi] = nr.Vals[fi] + b
+				recs[k] = nr
+				var texts []string
+				for _, r := range recs {
+					texts = append(texts, w.Render(r))
+				}
+				return w.WithRecs(texts), w.Render(nr)
+			}
+			wa, ra := mk("\xe9")
+			wb, rb := mk("\xe8")
+			ta, tb := c15Probe(wa), c15Probe(wb)
+			c.Count("fault.stored-value-differs-in-an-invalid-utf8-byte", 1)
+			if ra != rb && len(ta.Entries) == len(tb.Entries) {
+				for i := range ta.Entries {
+					a, b := ta.Entries[i], tb.Entries[i]
+					if a.Class != run.ClsRecord || b.Class != run.ClsRecord || !(strings.Contains(a.RawJSON, "\ufffd") || strings.Contains(a.RawJSON, `\ufffd`)) {
+						continue
+					}
+					if a.Checksum == b.Checksum {
+						v := viol("C15.checksum-sensitive", w.Format+": two records that differ in one ingested byte have the same checksum",
+							det(fmt.Sprintf("record #%d field %d ends in the byte 0xE9 in one input and in 0xE8 in the other (neither is UTF-8); raw %s both times, checksum %s both times", i+1, fi, clipS(a.RawJSON, 200), a.Checksum),
+								fmt.Sprintf("record in one input: %q", clipS(ra, 300)), fmt.Sprintf("in the other:        %q", clipS(rb, 300)))...)
+						// known finding: the checksum is taken over json.Marshal's output, which writes U+FFFD for
+						// every byte that is not UTF-8
+						if a.RawJSON == b.RawJSON && c.FindingOpen("checksum-collapses-bytes-that-are-not-utf8") {
+							v.Finding = "checksum-collapses-bytes-that-are-not-utf8"
+							v.What = w.Format + ": two records that differ only in bytes that are not valid UTF-8 have the same raw-record JSON (U+FFFD for each) and the same checksum"
+						}
+						return []Violation{v}
+					}
+				}
+			}
+		}
+	}
 	// fresh processes
 	if c.T.Chance("c15.fresh", 1, 4) {
 		want := transcriptHash(k0)
